@@ -12,7 +12,7 @@ from lib import f32, f2h, h2f  # noqa
 MODULES = ["InovesaModel.Props.C09", "InovesaModel.Props.TieMoments", "InovesaModel.Props.TieRuler", "InovesaModel.Props.TiePS"]
 LEVEL = "proof"
 U = 2.0 ** -24
-OPS = ["x", "y", "i", "n", "N", "a0", "a1", "v0", "v1", "c", "p"]
+OPS = ["x", "y", "i", "n", "N", "a0", "a1", "v0", "v1", "c", "p", "D", "D"]
 
 
 def psg_case(cid, n, nb, box, zoom, fset, seq):
@@ -127,6 +127,14 @@ def gen(rng, count, sizes):
                 params2 = [params[0]] + [[(rng.uniform(0.2, 2.0), rng.uniform(-1, 1), 0.5, rng.uniform(-1, 1), 0.5)]
                                         for _ in range(nb - 1)]
                 rec["data2"] = gauss_data(n, nb, box, params2)
+        elif k % 12 == 4:
+            # the grid is rewritten (op D: every bunch moved by one column) and then refreshed in EITHER order: each
+            # refresh must use the data as they are now (compact data: many columns without charge)
+            kind = "random"
+            rec["kind"] = kind
+            data = [abs(x) for x in C.data_family(rng, n, nb, "impulse", 0)]
+            seq = ["D", "D", "y", "x", "i", "v1", "v0", "p", "D", "x", "y", "i", "p"]
+            rec["refreshed"] = True
         else:
             data = [abs(x) for x in C.data_family(rng, n, nb, rng.choice(["gauss", "noise"]), 0)]
             seq = ["x", "y", "i", "v0", "v1", "p", "c", "p", "v0", "v1", "p"]
@@ -167,6 +175,26 @@ def oracle(rec, A):
     if not pr:
         return "no state printed"
     k = rec["kind"]
+    if rec.get("refreshed"):
+        # after a refresh (in either order) both profiles are the Simpson projections of the data as they are NOW
+        dq = (float(rec["box"][1]) - float(rec["box"][0])) / (n - 1)
+        ws = [dq / 3 * (1 if i in (0, n - 1) else (4 if i % 2 == 1 else 2)) for i in range(n)]
+        for st in pr:
+            dat = [h2f(x) for x in st["data"]]
+            for b in range(nb):
+                for axis, key in ((1, "proj1"), (0, "proj0")):
+                    got = [h2f(x) for x in st[key][b * n:(b + 1) * n]]
+                    want = []
+                    for i in range(n):
+                        if axis == 0:
+                            want.append(sum(dat[(b * n + i) * n + y] * ws[y] for y in range(n)))
+                        else:
+                            want.append(sum(dat[(b * n + x) * n + i] * ws[x] for x in range(n)))
+                    sc = max(1e-30, max(abs(w) for w in want))
+                    for i in range(n):
+                        if not abs(got[i] - want[i]) <= 1e-5 * sc:
+                            return ("after the grid was rewritten and refreshed, the %s profile of bunch %d is not the projection "
+                                    "of the data held (cell %d: %r vs %r)" % ("energy" if axis else "position", b, i, got[i], want[i]))
     if k == "norm":
         st = pr[-1]
         tot = 0.0
